@@ -47,6 +47,7 @@ pub mod c27;
 pub mod c28;
 pub mod c31;
 pub mod c32;
+pub mod c33;
 pub mod c34;
 pub mod insp;
 pub mod c29 {
@@ -101,6 +102,7 @@ pub fn dispatch(ctx: &Ctx, replay: Option<&str>) -> i32 {
         "C30" => c30,
         "C31" => c31,
         "C32" => c32,
+        "C33" => c33,
         "C34" => c34,
     )
 }
